@@ -169,3 +169,20 @@ func c06KeyAsOfPrevs(r *Report) {
 	}
 	r.OK(key, rule, p.Pos(fn.Pos()), fmt.Sprintf("%d call(s), each with SourceTransaction", len(calls)), true)
 }
+
+// gormZeroValue: zero-count rule "no gorm struct conditions / struct updates in these packages" with an in-tree control
+// (the matcher must see string conditions there).
+func gormZeroValue(r *Report, id string, why string, minControl int, owners map[string]string, pkgs ...string) {
+	if owners == nil {
+		owners = map[string]string{}
+	}
+	sites, ctrl := r.P.GormStructConds(pkgs...)
+	r.Own(OwnSpec{ID: id, Op: "build a gorm condition or update from a struct (zero-valued fields are silently dropped: " + why + ")", Sites: sites, Owners: owners, Min: 0})
+	rule := "SELF-TEST: the gorm condition matcher sees the string conditions of " + strings.Join(pkgs, ", ")
+	r.Sites += ctrl
+	if ctrl < minControl {
+		r.Undecided(id+".control", rule, "", fmt.Sprintf("%d string conditions found (expected >= %d): the zero-count rule would pass vacuously", ctrl, minControl))
+		return
+	}
+	r.OK(id+".control", rule, "", fmt.Sprintf("%d string conditions", ctrl), false)
+}
